@@ -1,5 +1,7 @@
 import Cql.Audit
 import Cql.Props.C09
 import Cql.Props.C09Concurrent
+import Cql.Props.C09Managed
 #audit_namespace Cql.Props.C09
 #audit_namespace Cql.Props.C09Concurrent
+#audit_namespace Cql.Props.C09Managed
